@@ -313,7 +313,48 @@ def compare_tables(p, exp, check_derived=True):
         out.extend(pdg_name_route(p, [m for m in allexp if m in obs]))
     if not out and check_derived:
         out.extend(chain_route(p, allexp))
+    if not out:
+        out.extend(print_route(p, allexp))
     return out
+
+
+def print_route(p, allexp, limit=3):
+    """The same lines as print_decay_modes shows them, with the model column: the model of every row is the line's model, preceded by the PHOTOS
+    keyword exactly when the line has it and the keyword is asked for (rows come by decreasing branching fraction, file order among equal values)."""
+    out = []
+    todo = [m for m, lines in allexp.items() if lines][:limit]
+    for m in todo:
+        lines = allexp[m]
+        order = sorted(range(len(lines)), key=lambda i: -(L.num(lines[i]["bf"]) if isinstance(lines[i]["bf"], str) else lines[i]["bf"]))
+        for show in (False, True):
+            PRINT_ROUTE_COUNT[0] += 1
+            buf = io.StringIO()
+            try:
+                with warnings.catch_warnings():
+                    warnings.simplefilter("ignore")
+                    with contextlib.redirect_stdout(buf):
+                        p.print_decay_modes(m, print_model=True, display_photos_keyword=show)
+            except Exception as e:  # noqa: BLE001
+                out.append(("tables:as-printed:raised", f"print_decay_modes({m!r}, print_model=True, display_photos_keyword={show}) raised {type(e).__name__}: {e}"))
+                break
+            rows = [ln for ln in buf.getvalue().splitlines() if ln.strip()]
+            if len(rows) != len(lines):
+                out.append(("tables:as-printed:row-count", f"{m}: {len(rows)} printed rows for {len(lines)} lines"))
+                break
+            for row, i in zip(rows, order):
+                ln = lines[i]
+                toks = row.rstrip().rstrip(";").split()
+                k = 1 + len(ln["fs"])
+                want = (["PHOTOS"] if (ln["photos"] and show) else []) + [ln["model"]]
+                if toks[1:k] != list(ln["fs"]) or toks[k:k + len(want)] != want:
+                    out.append(("tables:as-printed:model-column", f"{m} (display_photos_keyword={show}): row {row!r} expected daughters {ln['fs']} then {want}"))
+                    break
+            if out:
+                break
+    return out
+
+
+PRINT_ROUTE_COUNT = [0]
 
 
 def chain_route(p, allexp, limit=4, max_size=400):
